@@ -86,8 +86,74 @@ static void check_silent(Case &c, Inst &x, const char *when, const std::string &
     { c.violation(std::string("oracle:C08:chip-channel-busy-after-seek:") + when, vfmt("chip channel %zu keyed %s with %zu users; %s", ch, s.chip[ch].keyon ? "on" : "off", s.chip[ch].users.size(), ctx.c_str())); return; }
 }
 
+// ---------------------------------------------------------------------------------------------
+// stage audio: after a seek the song is continued through the audio call, with a tempo multiplier in force. The events behind the
+// target have to take effect at the frame that corresponds to their song time: never late, at most one 512-frame period early
+// (the same clause C07 checks for linear playback). Targets are drawn close in front of the next event row in half of the cases.
+// ---------------------------------------------------------------------------------------------
+static void run_audio(Case &c)
+{
+    Rng &r = c.rng;
+    SongOpts so; so.max_tracks = 4; so.max_events = 30; so.tempo_changes = true; so.lone_eot = true;
+    Song song = gen_song(r, so);
+    std::vector<uint8_t> file = serialize_song(song);
+    TempoMap tm; tm.build(song);
+    long rate = r.pick((const long[]){8000, 22050, 44100, 48000});
+    std::vector<double> times;
+    for(size_t t = 0; t < song.tracks.size(); t++) for(size_t i = 0; i < song.tracks[t].ev.size(); i++) { const SEv &e = song.tracks[t].ev[i]; if(!e.is_eot()) times.push_back((double)tm.seconds(e.tick)); }
+    std::sort(times.begin(), times.end());
+    double margin = std::max(4.0 / rate, 2e-4);
+    std::vector<std::pair<double, double> > gaps;
+    for(size_t i = 0; i + 1 < times.size(); i++) if(times[i + 1] - times[i] > 4 * margin) gaps.push_back(std::make_pair(times[i] + margin, times[i + 1] - margin));
+    if(gaps.empty() || times.back() > 600) { c.inconclusive = true; count("inconclusive_no_gap_between_events"); return; }
+    const double mult = r.pick((const double[]){1.0, 2.0, 4.0, 0.5, 3.0, 1.5});
+    const std::pair<double, double> &gp = gaps[r.below((uint32_t)gaps.size())];
+    double t = gp.first + r.unit() * (gp.second - gp.first);
+    const bool close = r.chance(0.5);
+    if(close) { double w = std::min(gp.second - gp.first, 700.0 * mult / (double)rate); t = gp.second - r.unit() * w; }   // within ~one period (in real time) of the next row
+    Inst B;
+    if(!open_inst(c, B, rate, file, false)) { if(B.d) opn2_close(B.d); return; }
+    API("opn2_setTempo", opn2_setTempo(B.d, mult));
+    short pcm[2 * 4096];
+    std::string ctx = vfmt("format %d, %zu tracks, division %d, rate %ld, tempo x%.3g, target %.9f (%s the next row at %.9f)", song.format, song.tracks.size(), song.division, rate, mult, t, close ? "close to" : "somewhere before", gp.second + margin);
+    if(r.chance(0.5)) { int n = r.range(1, 6); for(int i = 0; i < n; i++) { int got = 0; API("opn2_play", got = opn2_play(B.d, 2 * r.range(1, 2000), pcm)); (void)got; } ctx += "; played some audio first"; }
+    // (opn2_positionRewind keeps the unplayed delay of the old position and starts the song late by it; the statement speaks of seeks only,
+    // so that call is not judged here)
+    const bool rewind = false;
+    if(rewind) { t = 0; ctx += "; opn2_positionRewind instead of a seek"; API("opn2_positionRewind", opn2_positionRewind(B.d)); }
+    else API("opn2_positionSeek", opn2_positionSeek(B.d, t));
+    const long long F0 = (long long)P(B.d)->m_verifFramesOut;
+    const size_t e0 = B.cap.ev.size();
+    long calls = 0; size_t judged = 0;
+    while(calls++ < 4000 && (long long)P(B.d)->m_verifFramesOut - F0 < (long long)rate * 4)
+    {
+        int want = r.chance(0.3) ? 2 * r.range(1, 40) : 2 * r.range(1, 2048);
+        int got = 0; API("opn2_play", got = opn2_play(B.d, want, pcm));
+        int e = 0; API("opn2_atEnd", e = opn2_atEnd(B.d));
+        if(e || got == 0 || B.cap.ev.size() - e0 >= 12) break;
+    }
+    for(size_t i = e0; i < B.cap.ev.size() && g_w.violations_in_case == 0; i++)
+    {
+        const DEv &e = B.cap.ev[i];
+        if(e.song_t < t) continue;
+        double ref = (double)rate * (e.song_t - t) / mult, F = (double)((long long)e.frames - F0), slack = 1.0 + ref * 1e-9;
+        judged++;
+        if(F > ref + 1.0 + slack)
+            c.violation(rewind ? "oracle:C08:event-late-after-rewind:audio" : "oracle:C08:event-late-after-seek:audio", vfmt("%s (song time %.9f) took effect %.0f frames after the seek, its song time is %.2f frames behind the target; %s", e.str().c_str(), e.song_t, F, ref, ctx.c_str()));
+        else if(F < ref - 512.0 - 1.0 - slack)
+            c.violation(rewind ? "oracle:C08:event-early-after-rewind:audio" : "oracle:C08:event-early-after-seek:audio", vfmt("%s (song time %.9f) took effect %.0f frames after the seek, its song time is %.2f frames behind the target (more than one 512-frame period early); %s", e.str().c_str(), e.song_t, F, ref, ctx.c_str()));
+    }
+    count("events_timed_after_seek", (long long)judged);
+    c.nontrivial = judged >= 1;
+    cover(vfmt("audio|x%.3g|%s|rate%ld", mult, rewind ? "rewind" : close ? "close" : "far", rate));
+    c.sig = vfmt("audio|%.3g|%d", mult, close ? 1 : 0);
+    c.sample(std::string("{\"stage\":\"audio\",\"context\":") + jstr(ctx) + vfmt(",\"events_timed\":%zu}", judged));
+    API("opn2_close", opn2_close(B.d));
+}
+
 static void run_case(Case &c)
 {
+    if(g_w.stage == "audio") { run_audio(c); return; }
     Rng &r = c.rng;
     SongOpts so; so.max_tracks = 5; so.max_events = 40; so.tempo_changes = true; so.lone_eot = true;
     Song song = gen_song(r, so);
